@@ -105,6 +105,26 @@ pub fn check_sequence(rep: &mut Report, items: &[Item]) {
         if n != toks.len() || d.position() != input.len() {
             return Err(format!("Decoder::tokens yielded {} tokens and stopped at {}", n, d.position()));
         }
+        // a tokenizer made *from a decoder* (by value, and by reference at a later position)
+        // continues at the decoder's position
+        if items.len() >= 2 {
+            let mut first = Vec::new();
+            refcbor::tokens(&items[0], &mut first);
+            let skip = items[0].encode().len();
+            let mut d = Decoder::new(&input);
+            d.set_position(skip);
+            let rest: Result<Vec<Token>, _> = Tokenizer::from(d).collect();
+            let rest = rest.map_err(|e| format!("Tokenizer::from(decoder at {}) failed: {}", skip, e))?;
+            if rest.len() != rt.len() - first.len() || !rest.iter().zip(rt[first.len()..].iter()).all(|(t, r)| tok_matches(t, r)) {
+                return Err(format!("Tokenizer::from(decoder at position {}) yields {} tokens {:?}, the items after that position have {}", skip, rest.len(), rest.first(), rt.len() - first.len()));
+            }
+            let mut d = Decoder::new(&input);
+            d.set_position(skip);
+            let n2 = d.tokens().count();
+            if n2 != rest.len() || d.position() != input.len() {
+                return Err(format!("Decoder::tokens from position {} yields {} tokens and stops at {}", skip, n2, d.position()));
+            }
+        }
         // the slice impl writes an array head followed by the same bytes
         let v = minicbor::to_vec(&toks[..]).map_err(|e| e.to_string())?;
         let mut want = Vec::new();
